@@ -168,6 +168,34 @@ class Driver:
         return out
 
 
+def run_groups(driver, groups, jobs=None, timeout=900):
+    """groups: list of lists of request lines that must stay together (stateful histories).  Returns per-group outputs."""
+    jobs = jobs or min(16, os.cpu_count() or 4)
+    if not groups:
+        return []
+    buckets = [[] for _ in range(min(jobs, len(groups)))]
+    for i, g in enumerate(groups):
+        buckets[i % len(buckets)].append(i)
+    from concurrent.futures import ThreadPoolExecutor
+
+    def work(idxs):
+        lines = []
+        for i in idxs:
+            lines.extend(groups[i])
+        out = driver.run(lines, timeout)
+        res = {}
+        k = 0
+        for i in idxs:
+            res[i] = out[k:k + len(groups[i])]
+            k += len(groups[i])
+        return res
+    merged = {}
+    with ThreadPoolExecutor(max_workers=len(buckets)) as ex:
+        for r in ex.map(work, buckets):
+            merged.update(r)
+    return [merged[i] for i in range(len(groups))]
+
+
 def req(op, *fields):
     return '\t'.join([op] + list(fields))
 
